@@ -189,7 +189,8 @@ def _min_error_primal(
     # # Numerical inaccuracies can make it so the trace of the density matrices aren't unital, which messes up with
     # # cvxopt
     # dms = [state / np.trace(state) for state in dms]
-    objective = picos.sum([(picos.trace(probs[i] * dms[i] * measurements[i])) for i in range(n)])
+    # The trace of a product of Hermitian operators is real, but PICOS types it as complex for complex states.
+    objective = picos.sum([(picos.trace(probs[i] * dms[i] * measurements[i])) for i in range(n)]).real
     problem.set_objective("min", objective)
     solution = problem.solve(solver=solver, **kwargs)
     return solution.value, measurements
